@@ -41,9 +41,14 @@
 (*   with the payload widths shrunk so that every limit is reached by short *)
 (*   strings.  Invariant RoundTrip: Decode(Encode(s)) = s, all consumed, in *)
 (*   bounds, for ALL strings up to MaxS over Alphabet.                      *)
+(* Mode "transcr": fidelity of that transcription: with the real widths,    *)
+(*   Encode(data) of the records' inputs is decoded (RoundTrip again) and   *)
+(*   compared with the bytes the real compressor produced (published flag   *)
+(*   `same`; a difference is not a violation of C12, it only says that the  *)
+(*   "scaled" result speaks about a different token choice).                *)
 EXTENDS Naturals, Integers, Sequences, Json, TLC, IOUtils, FiniteSets
 
-CONSTANTS Mode,      \* "records" | "streams" | "scaled"
+CONSTANTS Mode,      \* "records" | "streams" | "scaled" | "transcr"
           Big,       \* streams: include the far-offset streams with literal-only filler
           MaxS,      \* scaled: maximal string length
           Alphabet,  \* scaled: set of byte values
@@ -57,7 +62,7 @@ CONSTANTS Mode,      \* "records" | "streams" | "scaled"
 ASSUME /\ Base \in 1..128 /\ Off2N % Base = 0 /\ (Off2N \div Base) * Len2N <= 128
        /\ Off3N % Base = 0 /\ Off3N \div Base <= 128 /\ Len8N <= 256 /\ Len2N <= Len8N
 
-Records == IF Mode = "records" THEN ndJsonDeserialize(IOEnv.RECORDS) ELSE <<>>
+Records == IF Mode \in {"records", "transcr"} THEN ndJsonDeserialize(IOEnv.RECORDS) ELSE <<>>
 NRec == Len(Records)
 
 Pow2(k) == 2 ^ k
@@ -218,11 +223,12 @@ ShortLens == {3, 4, 33, 34}
 P(enc, off, len, d, tail, fk, two) ==
   [enc |-> enc, off |-> off, len |-> len, d |-> d, tail |-> tail, fk |-> fk, two |-> two]
 
-DS == IF Big THEN 0..7 ELSE {0, 1, 7}      \* distance of the copy source from the start of the output;
+DS == IF Big THEN 0..7 ELSE {0, 7}         \* distance of the copy source from the start of the output;
                                            \* it also moves the reference through the flag-bit positions
 StreamParams ==
        {P(1, off, len, d, tail, "lit", two) : off \in E1Offs, len \in LongLens, d \in DS, tail \in {0, 1}, two \in {0, 1}}
-  \cup {P(2, off, len, d, tail, "lit", two) : off \in E2Offs, len \in ShortLens, d \in DS \ {1}, tail \in {0, 2}, two \in {0, 1, 2}}
+  \cup {P(2, off, len, d, 0, "lit", two) : off \in E2Offs, len \in ShortLens, d \in DS \ {1}, two \in {0, 1, 2}}
+  \cup {P(2, off, len, d, 2, "lit", 0) : off \in E2Offs, len \in ShortLens, d \in DS \ {1}}
   \cup {P(3, off, len, d, tail, fk, 0) : off \in E3Near, len \in LongLens, d \in DS \ {1}, tail \in {0, 1}, fk \in {"lit", "rep"}}
   \cup {P(3, off, len, 0, 0, "rep", 1) : off \in E3Near, len \in LongLens}
   \cup {P(3, off, len, d, tail, "rep", 0) : off \in E3Far, len \in LongLens, d \in {0, 6}, tail \in {0, 9}}
@@ -311,7 +317,7 @@ Encode(s) == Bytes(EncToks(s, 0, {}, <<>>))
 Strings == UNION {[1..k -> Alphabet] : k \in 0..MaxS}
 
 ---------------------------------------------------------------------------
-VARIABLES case,   \* records: [id]; streams: the parameter record; scaled: [s]
+VARIABLES case,   \* records, transcr: [id]; streams: the parameter record; scaled: [s]
           src,    \* the compressed bytes (records: <<>>, the bytes stay in Records: see Src)
           n,      \* expected output length
           pos,    \* bytes of src consumed
@@ -328,22 +334,26 @@ Src == IF Mode = "records" THEN Records[case.id].comp ELSE src
 Want == CASE Mode = "records" -> Records[case.id].data
           [] Mode = "streams" -> Meaning(Stream(case), 1, <<>>)
           [] Mode = "scaled"  -> case.s
+          [] Mode = "transcr" -> Records[case.id].data
 
 Init ==
   /\ \/ Mode = "records" /\ \E r \in 1..NRec : case = [id |-> r]
      \/ Mode = "streams" /\ \E p \in StreamParams : case = p
      \/ Mode = "scaled"  /\ \E s \in Strings : case = [s |-> s]
+     \/ Mode = "transcr" /\ \E r \in 1..NRec : case = [id |-> r]
   /\ src = <<>> /\ n = 0 /\ pos = 0 /\ out = <<>> /\ cnt = <<0, 0, 0, 0>> /\ marks = {}
   /\ st = "load"
 
 (* obtain the compressed bytes of the case *)
 Load ==
   /\ st = "load"
+  /\ LET w == Len(Want) IN
+       /\ n' = w
+       /\ st' = IF w = 0 THEN "done" ELSE "run"     \* nothing to decode: no byte may be touched
   /\ src' = CASE Mode = "records" -> <<>>
               [] Mode = "streams" -> ToBytes(Stream(case))
               [] Mode = "scaled"  -> Encode(case.s)
-  /\ n' = Len(Want)
-  /\ st' = IF Len(Want) = 0 THEN "done" ELSE "run"     \* nothing to decode: no byte may be touched
+              [] Mode = "transcr" -> Encode(Records[case.id].data)
   /\ UNCHANGED <<case, pos, out, cnt, marks>>
 
 (* decode the next GPS flag groups (flag byte + the tokens it governs) *)
@@ -386,7 +396,7 @@ BytesOK == Terminal => IsByteSeq(out)
 (* everything, stays inside both buffers                                                        *)
 StreamsLegal == (Mode = "streams" /\ st = "load") =>
   \A i \in 1..Len(Stream(case)) : LET t == Stream(case)[i] IN t.k = "R" => LegalRef(t)
-RoundTrip == (Mode \in {"streams", "scaled"} /\ Terminal) => st = "ok"
+RoundTrip == (Mode \in {"streams", "scaled", "transcr"} /\ Terminal) => st = "ok"
 
 (* publication of verdicts / expected observations (evaluated once per distinct state) *)
 Publish ==
@@ -399,4 +409,7 @@ Publish ==
                                   cnt |-> cnt, marks |-> marks]))
       [] Mode = "scaled" ->
            PrintT("@@" \o ToJson([s |-> case.s, src |-> src, st |-> st, cnt |-> cnt, marks |-> marks]))
+      [] Mode = "transcr" ->
+           PrintT("@@" \o ToJson([id |-> Records[case.id].id, same |-> (src = Records[case.id].comp), st |-> st,
+                                  cnt |-> cnt]))
 =============================================================================
